@@ -329,8 +329,9 @@ theorem kwonly_shadow_counterexample :
 def specQ : ArgSpec := { specF13 with posonly := [] }
 
 /-- `def q(**kw)`; `q(func=1)`: the original binds `kw={'func': 1}`; through any of the three wrappers the call
-raises `TypeError` — `wrapped(func, *args, **kwargs)` in context_managers.py receives `func` twice -/
-theorem keyword_named_func_counterexample :
+raises `TypeError` — `wrapped(func, *args, **kwargs)` in context_managers.py receives `func` twice (as long as
+that `func` is not positional-only: the flag is read from the source) -/
+theorem keyword_named_func_counterexample : callerFuncPosOnly = false →
     WF specQ ∧ NoPosOnlyKwClash specQ ⟨[], [(nm "func", 1)]⟩ ∧ shadows specQ = false ∧
     bind specQ ⟨[], [(nm "func", 1)]⟩ = .ok ⟨[], [], [(nm "func", 1)]⟩ ∧
     callThrough specQ ⟨[], [(nm "func", 1)]⟩ = .error .typeError := by decide
